@@ -29,6 +29,7 @@ type Contract struct {
 	Ensures       []Clause
 	Modifies      []string
 	LoopInv       map[int][]Clause
+	StepLemma     map[int][]Clause
 	LoopMod       map[int][]string
 	Assumed       bool // contract is trusted, body not verified
 	MayPanic      bool
@@ -280,6 +281,11 @@ func (cs *Contracts) parseContractLines(lines []string, file string, pkgPath str
 			cur.Ensures = append(cur.Ensures, cl)
 		case "invariant":
 			cur.LoopInv[lastLoop] = append(cur.LoopInv[lastLoop], cl)
+		case "steplemma":
+			if cur.StepLemma == nil {
+				cur.StepLemma = map[int][]Clause{}
+			}
+			cur.StepLemma[lastLoop] = append(cur.StepLemma[lastLoop], cl)
 		case "global":
 			cs.Globals = append(cs.Globals, GlobalInv{Pkg: pkgPath, Clause: cl})
 		case "pred":
@@ -455,6 +461,16 @@ func (cs *Contracts) parseContractLines(lines []string, file string, pkgPath str
 			switch f[1] {
 			case "invariant":
 				lastClause = &Clause{Text: f[2], Where: where}
+				lastKind = "invariant"
+				lastLoop = n
+			case "step_lemma":
+				// a two-state fact proved at every back edge before the invariants (head(e) is e at the loop head)
+				lastClause = &Clause{Text: f[2], Where: where}
+				lastKind = "steplemma"
+				lastLoop = n
+			case "assume":
+				// a definitional axiom assumed at the loop head (never proved; listed in the evidence)
+				lastClause = &Clause{Text: f[2], Where: where, Free: true}
 				lastKind = "invariant"
 				lastLoop = n
 			case "modifies":
